@@ -14,7 +14,7 @@
 EXTENDS Scheduler, SchedTraceData
 
 (* SchedTraceData (generated per validation batch) defines                                                      *)
-(*   Traces   sequence of [shape, outs, scan, start, memo, steps]; steps: sequence of step tuples (see Matches)  *)
+(*   Traces   sequence of [shape, outs, scan, start, memo, conds, steps]; steps: sequence of step tuples (see Matches) *)
 
 VARIABLES tid, l
 tvars == <<vars, tid, l>>
@@ -22,8 +22,8 @@ tvars == <<vars, tid, l>>
 T == Traces[tid].steps
 
 (* a step record is the tuple <<ev, c, cs, exitR, nrun, nrestart, nresub, fin, killreq, notified, done, staged, stop,  *)
-(* stage, phase, verdict, killed, memoized, sleepReq, asleep, postponed, nsleep>> (positional: record fields named like  *)
-(* the variables would only trigger SANY warnings)                                                                        *)
+(* stage, phase, verdict, killed, memoized, sleepReq, asleep, postponed, nsleep, order, live, curiter, phdone>>           *)
+(* (positional: record fields named like the variables would only trigger SANY warnings)                                  *)
 Ev(e) == e[1]
 Arg(e) == e[2]
 Matches(e) ==
@@ -32,13 +32,14 @@ Matches(e) ==
   /\ done' = e[11] /\ staged' = e[12] /\ stop' = e[13] /\ stage' = e[14] /\ phase' = e[15]
   /\ verdict' = e[16]
   /\ killed' = e[17] /\ memoized' = e[18] /\ sleepReq' = e[19] /\ asleep' = e[20] /\ postponed' = e[21] /\ nsleep' = e[22]
+  /\ order' = e[23] /\ live' = e[24] /\ curiter' = e[25] /\ phdone' = e[26]
 
 (* the run's constants come from the record: shape, fault sequences, scan order, starting stage, memoization answers *)
 TraceInit ==
   /\ tid \in 1..Len(Traces)
   /\ l = 0
   /\ sid = Traces[tid].shape /\ oa = Traces[tid].outs /\ order = Traces[tid].scan
-  /\ start = Traces[tid].start /\ memo = Traces[tid].memo
+  /\ start = Traces[tid].start /\ memo = Traces[tid].memo /\ condans = Traces[tid].conds
   /\ cs = [c \in 1..Shapes[sid].n |-> IF c \in Skipped(sid, start) THEN "finished" ELSE "idle"]
   /\ exitR = [c \in 1..Shapes[sid].n |-> "none"]
   /\ nrun = [c \in 1..Shapes[sid].n |-> 0]
@@ -51,8 +52,9 @@ TraceInit ==
   /\ done = Skipped(sid, start) /\ staged = {} /\ stop = FALSE /\ stage = start /\ phase = "running"
   /\ verdict = SubSeq(SkipVerdicts, 1, start)
   /\ killed = FALSE /\ memoized = {}
-  /\ sleepReq = FALSE /\ asleep = FALSE /\ postponed = {} /\ nsleep = 0
+  /\ sleepReq = FALSE /\ asleep = FALSE /\ postponed = <<>> /\ nsleep = 0
   /\ pm = [c \in 1..Shapes[sid].n |-> FALSE]
+  /\ live = InitLive(sid) /\ curiter = 0 /\ phdone = FALSE
 
 (* what an rx hop that is no controller callback may do to the projected state *)
 Internal == \/ UNCHANGED vars
@@ -64,13 +66,14 @@ Step(e) ==
     [] Ev(e) = "TaskExit" -> TaskExit(Arg(e))
     [] Ev(e) = "KilledExit" -> KilledExit(Arg(e))
     [] Ev(e) = "PostMortemCheck" -> (PostMortemCheck(Arg(e)) \/ LatePostMortem(Arg(e)) \/ LatePostMortemRepaired(Arg(e)))
-    [] Ev(e) = "FinishedCheck" -> FinishedCheck(Arg(e))
+    \* a recorded finishedCheck / wake_up is matched by the current code's behaviour or by the repaired one (FcEffectX)
+    [] Ev(e) = "FinishedCheck" -> (FinishedCheckF(Arg(e), e[23], FALSE) \/ FinishedCheckF(Arg(e), e[23], TRUE))
     [] Ev(e) = "Internal" -> Internal
     [] Ev(e) = "StageEnd" -> StageEnd
     [] Ev(e) = "Cleanup" -> Cleanup
     [] Ev(e) = "ExternalKill" -> ExternalKill
     [] Ev(e) = "Sleep" -> SleepCall
-    [] Ev(e) = "WakeUp" -> WakeUp
+    [] Ev(e) = "WakeUp" -> (WakeUpF(e[23], FALSE) \/ WakeUpF(e[23], TRUE))
     [] OTHER -> FALSE
 
 TraceNext ==
@@ -92,7 +95,8 @@ AllAccepted ==
 (* action properties of Scheduler.tla restated over tvars (same formulas, evaluated on logged real states) *)
 TLaunchSafeModuloKnown == [][\A c \in Comp : (nrun[c] = 0 /\ nrun'[c] = 1) => (LaunchOk(c) \/ KnownWindow(c))]_tvars
 TLaunchSafe == [][\A c \in Comp : (nrun[c] = 0 /\ nrun'[c] = 1) => LaunchOk(c)]_tvars
-TFinalAbsorbing == [][\A c \in Comp : cs[c] \in Final => cs'[c] = cs[c]]_tvars
+TFinalAbsorbing == [][\A c \in Comp : cs[c] \in Final => (cs'[c] = cs[c] \/ CondRetag(c))]_tvars
+TLoopConsumerWaits == [][\A c \in Comp : (ConsumesLoop(c) /\ nrun[c] = 0 /\ nrun'[c] = 1) => LoopEnded]_tvars
 TNoRunAfterFinal == [][\A c \in Comp : cs[c] \in Final => nrun'[c] = nrun[c]]_tvars
 TNoLaunchAfterStop == [][(killed \/ stop) => \A c \in Comp : nrun'[c] = nrun[c]]_tvars
 TNoLaunchWhileAsleep == [][(sleepReq \/ asleep') => \A c \in Comp : ~(nrun[c] = 0 /\ nrun'[c] = 1)]_tvars
